@@ -151,6 +151,8 @@ type StepCtx struct {
 	Resp     []*PMsg
 	RespPkt  []*OutPkt
 	Foreign  bool // activity not caused by the stimulus happened inside the step
+	Matched  *UpReq
+	Ambiguous bool
 	newUps   []*UpReq
 	expTermr map[uint32]string
 }
@@ -357,7 +359,12 @@ func (m *Model) observeUps(ctx *StepCtx) {
 
 func (m *Model) abandoned(u *UpReq, now time.Duration) bool {
 	W := time.Duration(m.s.cfg.RetransMs) * time.Millisecond
-	return len(u.Sends) >= 1+m.s.cfg.MaxRetrans && now-u.Sends[len(u.Sends)-1] >= W
+	ab := len(u.Sends) >= 1+m.s.cfg.MaxRetrans && now-u.Sends[len(u.Sends)-1] >= W
+	if ab && !u.Answered && !u.abCounted {
+		u.abCounted = true
+		m.s.probe("tx.abandoned", 1)
+	}
+	return ab
 }
 
 // ---- delivering a datagram to the UPF -----------------------------------------------------
@@ -690,32 +697,47 @@ func (m *Model) finishRules(x *MSess, in *MsgIntent, ctx *StepCtx) {
 func (m *Model) onAnswer(ctx *StepCtx) {
 	s := m.s
 	dg := ctx.Dg
-	u := dg.Up
-	mode := dg.Ans.Mode
-	matches := mode == "ok" || mode == "seid0"
-	if u.Answered || m.abandoned(u, ctx.t0) {
-		matches = false // a second copy, or too late: nothing is outstanding
+	pm, err := parsePMsg(dg.B)
+	if err != nil {
+		return
 	}
-	if !matches {
+	// which outstanding request, if any, does this response match? (same peer address,
+	// same sequence number, still outstanding) -- judged on the wire content alone
+	var u *UpReq
+	for _, c := range m.ups {
+		if c.Dst == dg.Src.String() && c.Seq == pm.Seq && !c.Answered && !m.abandoned(c, ctx.t0) {
+			u = c
+			break
+		}
+	}
+	if u == nil {
 		s.probe("tx.rsp.nomatch", 1)
 		return
 	}
 	u.Answered = true
+	ctx.Matched = u
 	s.probe("tx.rsp.match", 1)
-	if mode == "seid0" {
+	if pm.HasSEID && pm.SEID == 0 {
 		// the session whose CP SEID and peer match the answered report goes away
 		var victim *MSess
+		n := 0
 		for _, up := range m.liveSEIDs() {
 			x := m.sess[up]
-			n := m.nodes[x.Node]
-			if x.CP == u.CPSEID && n != nil && n.Addr == dg.Src.String() {
-				victim = x
-				break
+			nd := m.nodes[x.Node]
+			if x.CP == u.CPSEID && nd != nil && nd.Addr == dg.Src.String() {
+				if victim == nil {
+					victim = x
+				}
+				n++
 			}
+		}
+		if n > 1 {
+			ctx.Ambiguous = true // the peer gave two of its sessions the same SEID
 		}
 		if victim != nil {
 			ctx.Target = victim
 			m.endSession(victim, ctx)
+			s.probe("seid0.removed", 1)
 		}
 	}
 }
